@@ -177,7 +177,19 @@ func main() {
 			names := []string{"a", "b", "c", "d"}
 			k := 2 + r.Intn(3)
 			names = names[:k]
+			if r.Chance(45) { // a package directory whose "main" names the file, and an index directory, take part in the graph
+				names = append(names, "pk")
+			}
+			if r.Chance(30) {
+				names = append(names, "ix")
+			}
 			spell := func(target string) string {
+				if target == "pk" {
+					return r.Pick([]string{"./pk", "/vr/app/pk", "./pk/main.js", "./pk/main", "./x/../pk", "../app/pk", "/vr/app/pk/main.js"})
+				}
+				if target == "ix" {
+					return r.Pick([]string{"./ix", "/vr/app/ix", "./ix/index.js", "./ix/index", "./x/../ix"})
+				}
 				switch r.Intn(7) {
 				case 0:
 					return "./" + target
@@ -213,7 +225,16 @@ func main() {
 						prog = append(prog, instr{op: "req", req: r.Pick([]string{"./e.json", "./e", "./nope", "./dirm", "lib", "./bad.json"}), catch: r.Chance(50)})
 					}
 				}
-				files["/vr/app/"+nm+".js"] = jsmod(prog...)
+				switch nm {
+				case "pk":
+					files["/vr/app/pk/main.js"] = jsmod(prog...)
+					files["/vr/app/pk/package.json"] = fentry{kind: "pkg", main: "main.js"}
+					pkgText["/vr/app/pk/package.json"] = `{"main": "main.js"}`
+				case "ix":
+					files["/vr/app/ix/index.js"] = jsmod(prog...)
+				default:
+					files["/vr/app/"+nm+".js"] = jsmod(prog...)
+				}
 			}
 			files["/vr/app/e.json"] = fentry{kind: "json", valid: true, v: 7}
 			if r.Chance(50) {
@@ -264,6 +285,9 @@ func main() {
 				add("m/lib.js", jsmod())
 				add("m/lib/index.js", jsmod())
 				add("m/lib.json", fentry{kind: "json", valid: true, v: 3})
+				add("m/lib.min.js", jsmod())
+				add("m/data.v2.json", fentry{kind: "json", valid: true, v: 4})
+				add("m/lib.min", jsmod())
 				if r.Chance(50) {
 					p := b + "/m/package.json"
 					switch r.Intn(7) {
@@ -276,7 +300,7 @@ func main() {
 					case 3:
 						files[p] = fentry{kind: "err"}
 					default:
-						main := r.Pick([]string{"lib", "lib.js", "./lib", "lib/index.js", "index.js"})
+						main := r.Pick([]string{"lib", "lib.js", "./lib", "lib/index.js", "index.js", "lib.min", "./data.v2", "lib.min.js", "./lib.min"})
 						// claimed domain: the main target exists
 						files[p], pkgText[p] = fentry{kind: "pkg", main: main}, fmt.Sprintf(`{"main": %s}`, jsq(main))
 					}
